@@ -35,7 +35,9 @@ fn park(emu: &mut Emu, frame: usize) {
     }
 }
 
-const EXT_CLAIMS: [(u16, u16); 2] = [(0xFFFF, 0xCCCC), (0x00FF, 0x003B)];
+// a fully decoded port, a low-byte pattern on odd ports, and two patterns that overlap built-in devices: 0x1xFD (the
+// 128K paging latch would take it) and every port with low byte 0xFC (ULA, paging latch or AY would take it)
+const EXT_CLAIMS: [(u16, u16); 4] = [(0xFFFF, 0xCCCC), (0x00FF, 0x003B), (0xF0FF, 0x10FD), (0x00FF, 0x00FC)];
 
 fn sweep(out: &mut Out, r: &mut Rng, m128: bool, kempston: bool, mouse: bool, ext: bool, ear_high: bool) {
     let frame = if m128 { FRAME_128 } else { FRAME_48 };
@@ -88,7 +90,7 @@ fn sweep(out: &mut Out, r: &mut Rng, m128: bool, kempston: bool, mouse: bool, ex
         json!([0, 0, 0])
     };
     out.ev(json!({"ev":"cfg","m": if m128 {128} else {48},"kempston":kempston,"mouse":mouse,
-                  "ext": if ext { json!([[0xFFFF, 0xCCCC], [0x00FF, 0x003B]]) } else { json!([]) },
+                  "ext": if ext { json!(EXT_CLAIMS.iter().map(|(m, v)| vec![*m, *v]).collect::<Vec<_>>()) } else { json!([]) },
                   "keys":held,"kemp":0x15,"mousereg":mouse_regs,"ayval":0x40,"extval":0xE7,"ear":ear_high}));
 
     // ---- reads: IN A,(C) for every port, beam parked outside the picture
